@@ -44,6 +44,9 @@ fn corpus() -> Vec<CorpusDoc> {
     add("gen:degenerate/wellknown-only.xsd", verif.join("corpus/degenerate/wellknown-only.xsd"));
     add("gen:degenerate/notschema.xml", verif.join("corpus/degenerate/notschema.xml"));
     add("gen:big-enum.xsd", verif.join("corpus/big/big-enum.xsd"));
+    // documentation texts of unusual shape (blank lines inside, at the ends, whitespace-only lines, CRLF, empty, braces and
+    // comment markers, non-ASCII, very long lines) on simple types, enumerations, complex types, elements, attributes
+    add("gen:docs/doc-shapes.xsd", verif.join("corpus/docs/doc-shapes.xsd"));
     add("gen:big-type.xsd", verif.join("corpus/big/big-type.xsd"));
     for (n, p) in [
         ("test-data/single-complex.xsd", "zeep-lib/test-data/single-complex.xsd"),
